@@ -190,10 +190,15 @@ func (c *Ctx) hread(s *State, name string, vsort *Sort, idx *Term) *Term {
 }
 
 func (c *Ctx) hwrite(s *State, name string, vsort *Sort, idx, val *Term) {
+	c.hwriteB(s, name, vsort, idx, val, s.alloc)
+}
+
+// hwriteB: a store whose value is known to contain only references below `at`.
+func (c *Ctx) hwriteB(s *State, name string, vsort *Sort, idx, val *Term, at *Term) {
 	prev := c.heapNode(s, name, vsort)
 	n := newHNode(hStore, vsort)
 	n.prev, n.idx, n.val = prev, idx, val
-	n.at = s.alloc
+	n.at = at
 	s.heap[name] = n
 }
 
